@@ -231,7 +231,7 @@ def run_case(case, ctx):
     ev = torch.linalg.eigvalsh(A64)
     pd = float(ev[..., 0].min()) > 1e-6 * scale
     kap = float((ev[..., -1] / ev[..., 0].clamp_min(1e-300)).max()) if pd else float("inf")
-    with settings.max_root_decomposition_size(case["max_iter"]), warnings.catch_warnings():
+    with settings.max_root_decomposition_size(case["max_iter"]), Recorder(keep=("lanczos",), clone=True) as crec, warnings.catch_warnings():
         warnings.simplefilter("ignore")
         if cons == "root":
             res, ex = compare.attempt(lambda: op.root_decomposition(method="lanczos").root.to_dense())
@@ -275,6 +275,41 @@ def run_case(case, ctx):
         target = Pm @ A64 @ Pm
         sc = scale
         tl = 5e-3
+    # the jitter itself: at full Krylov rank the Lanczos root is a root of A + delta I with delta = tridiagonal_jitter * min diag(T),
+    # T being determined by A and the (recorded) start vector
+    ends = crec.of("lanczos.end")
+    if cons == "root" and fam == "full" and case["max_iter"] >= n and n >= 3 and kap <= 1e3 and len(ends) == 1 and ends[0].get("init_vecs") is not None \
+            and bool(keep.sum(-1).min() == n):
+        v0 = ends[0]["init_vecs"].to(torch.float64)
+        if v0.shape[-1] == 1 and tuple(v0.shape[:-2]) == tuple(batch):
+            Af, vf = A64.reshape(-1, n, n), v0.reshape(-1, n, 1)
+            E = (G.to(torch.float64) - A64).reshape(-1, n, n)
+            worst = None
+            for i_ in range(Af.shape[0]):
+                q = [vf[i_, :, 0] / vf[i_, :, 0].norm()]
+                while len(q) < n:
+                    w_ = Af[i_] @ q[-1]
+                    for _ in range(2):
+                        for u in q:
+                            w_ = w_ - (u @ w_) * u
+                    if float(w_.norm()) < 1e-10 * scale:
+                        break
+                    q.append(w_ / w_.norm())
+                if len(q) < n:
+                    continue
+                Qm = torch.stack(q, 1)
+                dT = (Qm.mT @ Af[i_] @ Qm).diagonal()
+                want = float(settings.tridiagonal_jitter.value()) * float(dT.min())
+                got = float(E[i_].diagonal().mean())
+                off = float((E[i_] - got * torch.eye(n, dtype=torch.float64)).abs().max())
+                ctx.stat("jitter_amount_checked")
+                if want > 0 and (not 0.5 <= got / want <= 2.0 or off > 0.5 * abs(got)):
+                    worst = (got, want, off)
+            if worst is not None:
+                ctx.fail("consumer.root_jitter_amount", "value", err=worst[0] / worst[1],
+                         detail=f"R R^T - A = {worst[0]:.3e} I (off-diagonal part {worst[2]:.1e}) where tridiagonal_jitter * min diag(T) = {worst[1]:.3e}", **kw)
+            else:
+                ctx.ok("consumer.root_jitter_amount", kb, True)
     err = float((G.to(torch.float64) - target).abs().max()) / sc
     if not err <= tl:
         ctx.fail(oname, "value", err=err, detail=f"R R^T differs from the compression onto range(R): err {err:.2e} tol {tl:.1e}", **kw)
